@@ -193,8 +193,21 @@ def width_of(kind, nd, par):
     return len(par) if kind == "vector" else nd
 
 
+def map_dict(par):
+    """A type map is a function (spec: CentreSelection depends on the function only); a Python dict also has an
+    insertion order, which is a rendering choice: ascending, descending or rotated keys, picked from the content."""
+    pairs = [(int(k), int(v)) for k, v in par]
+    if len(pairs) > 1:
+        how = sum(k + 2 * v for k, v in pairs) % 3
+        if how == 1:
+            pairs = pairs[::-1]
+        elif how == 2:
+            pairs = pairs[1:] + pairs[:1]
+    return dict(pairs)
+
+
 def real_par(kind, par):
-    return {int(k): int(v) for k, v in par} if kind == "centre" else par
+    return map_dict(par) if kind == "centre" else par
 
 
 class Reporter:
@@ -486,7 +499,7 @@ def gen_dump_session(L, rng, tmp, k):
     def rand_par(kind):
         if kind == "centre":
             keys = rng.sample(range(1, 6), rng.randint(0, 4))
-            return [[k_, rng.randint(1, 9)] for k_ in sorted(keys)]
+            return [[k_, rng.randint(1, 9)] for k_ in keys]      # insertion order of the dict is random
         if kind == "vector":
             return [rng.randint(1, ncols) for _ in range(rng.randint(1, 4))]
         return 0
